@@ -812,6 +812,97 @@ class Generator:
         self.plan = [take_ref, hide, do_join, use]
         return {"op": "mutate", "t": r.id, "cols": [[name, {"e": "lit", "v": rng.randrange(100, 999)}]]}
 
+    def g_agg_selfjoin_scenario(self):
+        """an aggregate of a table is re-rooted (plain alias, possibly twice) and joined back onto the
+        table it was computed from: the columns that the summarize dropped exist on the left side
+        only, and must keep denoting the left side's data in and after the join"""
+        m = self.m
+        rng = self.rng
+        T = m.model.toks
+
+        def ok(p):
+            if p.m.grouping or not p.m.rowid or (p.nrows or 12) > 40 or len(p.m.visible) > 14:
+                return False
+            vis = p.m.vis_toks()
+            keys = [t for t in vis if T[t].kind == "int" and T[t].mod and t not in p.m.opaque]
+            vals = [t for t in vis if T[t].kind == "int" and not T[t].mod and t not in p.m.opaque]
+            return bool(keys) and bool(vals)
+
+        a = self.pick_table(ok)
+        if a is None:
+            return None
+        vis = a.m.vis_toks()
+        key = a.m.name_of_tok(rng.choice([t for t in vis if T[t].kind == "int" and T[t].mod and t not in a.m.opaque]))
+        val = a.m.name_of_tok(rng.choice([t for t in vis if T[t].kind == "int" and not T[t].mod and t not in a.m.opaque]))
+        st = {"cur": f"t{self.cur_i}"}
+
+        def summ(i):
+            if st["cur"] not in m.tables:
+                self.plan.clear()
+                return None
+            prev, st["cur"] = st["cur"], f"t{i}"
+            return {"op": "summarize", "t": prev, "cols": [[self.fresh_name(), {"e": "agg", "f": rng.choice(["max", "min", "sum"]), "a": {"c": val}}]]}
+
+        def al(p):
+            def f(i):
+                if st["cur"] not in m.tables or rng.random() >= p:
+                    return None
+                prev, st["cur"] = st["cur"], f"t{i}"
+                return {"op": "alias", "t": prev, "name": rng.choice([None, None, *ALIAS_NAMES]), "keep": False}
+            return f
+
+        def do_join(i):
+            r2, l2 = m.tables.get(st["cur"]), m.tables.get(a.id)
+            if r2 is None or l2 is None or r2.m.same_as is None or l2.m.tok_of_name(key) is None or r2.m.tok_of_name(key) is None:
+                self.plan.clear()
+                return None
+            m.note("agg_selfjoin_scenario")
+            on = [key] if rng.random() < 0.3 else [{"p": "eq", "a": {"o": key}, "b": {"ro": key}}]
+            return {"op": "join", "l": l2.id, "r": r2.id, "on": on, "how": rng.choice(["inner", "left", "inner"]), "selfjoin": True}
+
+        self.plan = [summ, al(1.0), al(0.3), do_join]
+        return {"op": "group_by", "t": a.id, "cols": [{"c": key}], "add": False}
+
+    def g_hidden_group_reject_scenario(self):
+        """a table is grouped, the grouping column is hidden, the table is re-rooted by a plain
+        alias(): it is still a grouped table, so slice_head / join / union must reject it"""
+        from sim.rejects import gen_reject
+
+        m = self.m
+        rng = self.rng
+        T = m.model.toks
+        a = self.pick_table(lambda p: not p.m.grouping and len(p.m.visible) >= 3 and any(T[t].mod and T[t].kind == "int" for t in p.m.vis_toks()))
+        if a is None:
+            return None
+        key = a.m.name_of_tok(rng.choice([t for t in a.m.vis_toks() if T[t].mod and T[t].kind == "int"]))
+        st = {"cur": f"t{self.cur_i}"}
+
+        def hide(i):
+            if st["cur"] not in m.tables:
+                self.plan.clear()
+                return None
+            prev, st["cur"] = st["cur"], f"t{i}"
+            return {"op": "drop", "t": prev, "cols": [{"c": key}]}
+
+        def al(i):
+            if st["cur"] not in m.tables:
+                self.plan.clear()
+                return None
+            if rng.random() < 0.25:
+                return None
+            prev, st["cur"] = st["cur"], f"t{i}"
+            return {"op": "alias", "t": prev, "name": rng.choice([None, *ALIAS_NAMES]), "keep": rng.random() < 0.2}
+
+        def rej(i):
+            pt = m.tables.get(st["cur"])
+            if pt is None or not pt.m.grouping:
+                return None
+            m.note("hidden_group_reject_scenario")
+            return gen_reject(self, force_pt=pt, force_rules=["slice_grouped", "join_grouped", "union_grouped"])
+
+        self.plan = [hide, al, rej]
+        return {"op": "group_by", "t": a.id, "cols": [{"c": key}], "add": False}
+
     def g_mutate_w(self):
         st = self.g_mutate(window=True)
         return st
@@ -1381,6 +1472,18 @@ class Generator:
             if big:
                 l, r = rng.choice(big), s_
                 m.note("selfjoin_three_way")
+        if rng.random() < 0.3:
+            # the re-rooted copy of a DERIVED table joined with an ANCESTOR of that table (e.g.
+            # t >> join(t >> group_by(..) >> summarize(..) >> alias(), ...)): columns of the ancestor
+            # that went out of scope below the alias must not be confused with the copy's
+            anc = [
+                p
+                for p in (m.tables[t] for t in self.tables())
+                if p.id in t_.m.origins and p.id != t_.id and not p.m.grouping and not s_.m.grouping and not (set(p.m.scope) & set(s_.m.scope)) and not (p.m.origins & s_.m.origins)
+            ]
+            if anc:
+                l, r = rng.choice(anc), s_
+                m.note("selfjoin_with_ancestor")
         if not (set(l.real) & set(r.real)) or join_too_big(l, r):
             return None
         # equality on a pair of corresponding visible int columns (same name on both sides)
